@@ -31,9 +31,22 @@ def is_lazy(x):
         hasattr(x, "__next__") and hasattr(x, "__iter__"))
 
 
+class DCValue:
+    """Reference-side value of a dataset-class instance: member name -> value."""
+
+    def __init__(self, members):
+        self.members = dict(members)
+
+
 def freeze(x):
     """Consume lazy iterables (recursively) into tagged tuples; bodies call this on their arguments
     like any real body would consume its inputs."""
+    if isinstance(x, DCValue):
+        return ("<dataset-class-instance>",) + tuple((nm, freeze(v)) for nm, v in sorted(x.members.items()))
+    names = getattr(type(x), "__vlib_members__", None)
+    if names is not None:
+        # an instance of a generated dataset class: its members' values are what it is
+        return ("<dataset-class-instance>",) + tuple((nm, freeze(getattr(x, nm))) for nm in sorted(names))
     if isinstance(x, RefIter):
         return ("<iter>",) + tuple(freeze(i) for i in x.items)
     if is_lazy(x):
